@@ -87,6 +87,28 @@ pub fn gen(rng: &mut Rng, kind: &str, size: &str, profile: &str) -> Scenario {
             return gen_stale_n(rng, kind, n);
         }
         "frontchurn" => return gen_frontchurn(rng, kind, size),
+        "zerocap" => {
+            // an adapter with limit 0 never pulls anything (C09 starts at n = 1); it must at least stay silent (C14)
+            let mut sc = gen_adapter(rng, kind, size);
+            sc.cap = 0;
+            sc.tail = if rng.pct(75) { "quietonly" } else { "drop" }.into();
+            return sc;
+        }
+        "orphans" => {
+            // the children never keep the waker they are polled with: once pending they can never be woken, the
+            // collection must fall silent (no drain: nobody could announce a completion)
+            let mut sc = gen(rng, kind, size, "mix");
+            sc.nokeep = true;
+            for st in sc.scripts.values_mut() {
+                for x in st.iter_mut() {
+                    x.acts.retain(|a| matches!(a, Act::SelfWake));
+                }
+            }
+            sc.ops.retain(|o| !matches!(o, Op::Wake { .. } | Op::Complete { .. } | Op::Wclone { .. } | Op::Wdrop { .. }));
+            sc.tail = if rng.pct(75) { "quietonly" } else { "drop" }.into();
+            sc.final_wake = false;
+            return sc;
+        }
         "hugehint" => {
             // an honest upstream that holds more than usize::MAX items (virtual ones that are "not ready yet" follow the
             // scripted ones): its upper bound is None until the count fits, then exact (children.rs, hint "huge")
@@ -377,7 +399,7 @@ fn gen_starve(rng: &mut Rng, kind: &str, size: &str) -> Scenario {
             sc.stream_left.insert(c, 0);
         }
     }
-    if kind == "mb" {
+    if matches!(kind, "mb" | "ja" | "tja") {
         sc.ctor = "from_iter".into();
         sc.init = (1..=total).collect();
         sc.cap = total as usize;
